@@ -1,8 +1,130 @@
-"""Engine S dispatcher (symx). Filled in below."""
+"""Engine S dispatcher: builds /verif/symx against /repo's current tree (cfg yui_verif on), runs the
+property's configurations in parallel shards, merges their JSON, writes replay files for violations."""
+import os, json, hashlib, time, shutil
+from concurrent.futures import ThreadPoolExecutor
 from common import *
 
+SYMX_DIR = os.path.join(VERIF, "symx")
+TARGET = os.path.join(BUILD, "symx")
+BIN = os.path.join(TARGET, "release", "symx")
+S_PROPS = {"C01", "C02", "C03", "C05", "C06", "C07", "C08", "C09", "C10", "C11", "C12", "C13", "C14", "C15", "C16"}
+_built = False
+
+
+def build():
+    global _built
+    if _built:
+        return 0.0
+    env = {"CARGO_TARGET_DIR": TARGET, "RUSTFLAGS": "--cfg yui_verif"}
+    rc, out, secs, to = run(["cargo", "build", "--release", "--offline"], cwd=SYMX_DIR, timeout=3600, env=env)
+    if rc != 0:
+        say(out[-8000:])
+        say("ERROR: symx build failed")
+        raise SystemExit(2)
+    _built = True
+    return secs
+
+
+def has_configs(prop):
+    if prop not in S_PROPS:
+        return False
+    rc, out, _, _ = run([BIN, "list", prop, "--tier", "thorough"], timeout=120)
+    return rc == 0 and bool(out.strip())
+
+
 def run_property(prop, tier):
-    return None
+    if prop not in S_PROPS:
+        return None
+    build_s = build()
+    if not has_configs(prop):
+        return None
+    shards = int(os.environ.get("SYMX_SHARDS", "14"))
+    outdir = os.path.join(BUILD, "symx_out")
+    os.makedirs(outdir, exist_ok=True)
+    t0 = time.time()
+    cap = 1500 if tier == "quick" else 4 * 3600
+
+    def one(i):
+        out = os.path.join(outdir, "%s_%s_%d.json" % (prop, tier, i))
+        if os.path.exists(out):
+            os.remove(out)
+        rc, txt, secs, to = run([BIN, "run", prop, "--tier", tier, "--seed", str(seed()), "--shard", "%d/%d" % (i, shards), "--out", out],
+                                timeout=cap, mem_gb=6)
+        return i, rc, txt, to, out
+
+    with ThreadPoolExecutor(max_workers=shards) as ex:
+        rs = list(ex.map(one, range(shards)))
+    errors, configs, solver = [], [], dict(queries=0, sat=0, unsat=0, unknown=0, fallback_runs=0, fallback_resolved=0, seconds=0.0)
+    for i, rc, txt, to, out in rs:
+        if to:
+            errors.append("symx shard %d timed out after %ds" % (i, cap))
+            continue
+        if rc != 0 or not os.path.exists(out):
+            errors.append("symx shard %d failed (rc=%s): %s" % (i, rc, txt[-600:]))
+            continue
+        d = json.load(open(out))
+        configs += d["configs"]
+        for k in solver:
+            solver[k] += d["solver"].get(k, 0)
+    known = known_keys(prop)
+    violations = []
+    samples = []
+    for c in configs:
+        for e in c.get("errors", []):
+            errors.append("%s: %s" % (c["harness"], e))
+        for v in c.get("violations", []):
+            key = "%s|%s" % (c["harness"], v["what"][:70])
+            if key in known:
+                say("KNOWN-FINDING: property=%s %s" % (prop, known[key].get("what", key)))
+                continue
+            os.makedirs(os.path.join(REPLAY_DIR, prop), exist_ok=True)
+            body = dict(property=prop, engine="symx", harness=c["harness"], inputs=v["inputs"], what=v["what"], key=key)
+            path = os.path.join(REPLAY_DIR, prop, "symx_%s.json" % hashlib.sha1(json.dumps(body, sort_keys=True).encode()).hexdigest()[:10])
+            json.dump(body, open(path, "w"), indent=1)
+            violations.append(dict(harness=c["harness"], what=v["what"], inputs=v["inputs"], key=key, replay=path))
+        samples += c.pop("samples", [])[:2]
+    classes = sum(c["classes"] for c in configs)
+    proven = sum(c["classes_proven"] for c in configs)
+    fns = sorted({f for c in configs for f in c["functions"]})
+    cov = {
+        "tool": "symx (concolic execution of the repo's generic code over SymInt) + z3 5.1.0 (z3-new) incremental; one-shot fallback z3-new/cvc5/z3 4.8.12; cvc5 cross-check in thorough",
+        "build_s": round(build_s, 1),
+        "configurations": len(configs),
+        "configurations_exhaustive": sum(1 for c in configs if c["exhaustive"]),
+        "classes": classes,
+        "classes_proven": proven,
+        "classes_unknown": sum(c["classes_unknown"] for c in configs),
+        "classes_budget_exhausted": sum(c["classes_budget_exhausted"] for c in configs),
+        "undecided_branch_flips": sum(c["undecided_branch_flips"] for c in configs),
+        "obligations": sum(c["obligations"] for c in configs),
+        "obligations_syntactic_identities": sum(c["obligations_syntactic_identities"] for c in configs),
+        "solver": solver,
+        "functions_encoded": fns,
+        "per_configuration": configs,
+        "summary": "%d configs (%d with complete path tree), %d classes, %d proven, %d unknown; %d queries (%d unsat, %d sat, %d unknown), solver %.1fs, wall %.1fs" % (
+            len(configs), sum(1 for c in configs if c["exhaustive"]), classes, proven, sum(c["classes_unknown"] for c in configs),
+            solver["queries"], solver["unsat"], solver["sat"], solver["unknown"], solver["seconds"], time.time() - t0),
+    }
+    return dict(
+        violations=violations, errors=errors, coverage=cov, evaluations=classes, distinct=proven, samples=samples[:8],
+        rule=("S: one evaluation = one path class (set of all inputs within the stated bounds that take the same decisions at every "
+              "scalar test), executed once on a solver-chosen member by running the repo's generic code over the symbolic scalar; "
+              "non-trivial/distinct = classes whose obligations were discharged (syntactically or by an unsat answer); class hashes are deduplicated"),
+        assumptions=[
+            "S/A1: one rayon worker thread; thread schedules are not explored",
+            "S/A2: scalars are mathematical integers (BigInt semantics); machine-width overflow is only covered where a Kani harness says so",
+            "S/A4: shapes, diagrams, flag subsets, pivot strategies are enumerated configurations (listed per configuration); entries / parameters are symbolic within the stated box",
+            "S/A5: hash-iteration order is whatever the run saw; a run that does not reproduce its expected path prefix is counted as a divergence and voids the exhaustive flag",
+            "S/A6: z3, cvc5, rustc, nalgebra, sprs, num-bigint trusted; 'exhaustive' = path tree complete (every flipped branch explored or unsat), not an unbounded proof",
+        ])
+
 
 def replay_file(path):
-    return 2
+    build()
+    rc, out, _, _ = run([BIN, "replay", path], timeout=1800)
+    say(out.strip())
+    r = json.load(open(path))
+    if rc == 1:
+        say("VIOLATION property=%s replay=%s" % (r["property"], path))
+        return 1
+    return 0 if rc == 0 else 2
